@@ -87,7 +87,9 @@ func HeaderBlock(feature string) []byte {
 }
 
 // DenseBlock returns an OSMData block holding nodes with the given ids (possibly none).
-func DenseBlock(ids []int64, useZlib, corrupt bool) []byte { return DenseBlockX(ids, useZlib, corrupt, 0, 0) }
+func DenseBlock(ids []int64, useZlib, corrupt bool) []byte {
+	return DenseBlockX(ids, useZlib, corrupt, 0, 0)
+}
 
 // DenseBlockX: gran > 0 writes a granularity field (absent otherwise: the format default applies); pad > 0 adds an unused
 // string of that many bytes to the string table (a block whose uncompressed size is large although it holds few elements).
@@ -144,13 +146,13 @@ type Cfg struct {
 
 // File is the rendering of a Cfg.
 type File struct {
-	Data   []byte
-	Offs   []int64 // byte offset of data block k (index k-1)
-	Ends   []int64 // byte offset just after data block k
-	Per    []int   // objects per block (0 for damaged blocks)
+	Data    []byte
+	Offs    []int64 // byte offset of data block k (index k-1)
+	Ends    []int64 // byte offset just after data block k
+	Per     []int   // objects per block (0 for damaged blocks)
 	FirstID []int64 // id of the first object of block k
-	Hdr    string
-	HdrLen int64 // length of the header block (0 if none)
+	Hdr     string
+	HdrLen  int64 // length of the header block (0 if none)
 }
 
 // Build renders c. Object <<k, j>> gets id FirstID[k-1]+j-1; ids increase through the file.
